@@ -635,6 +635,11 @@ func CheckMain(id, tier string, seed int64) int {
 		if v.Desc == nil {
 			v.Desc = desc
 		}
+		if cf, isCf := c.(Confirmer); isCf && ok < nconf && ok >= cf.MinConfirmations(s, nconf) {
+			// the check declares this kind of observation sound on a single occurrence (e.g. a report of the
+			// race detector, which has no false positives but depends on the free-running schedule)
+			ok = nconf
+		}
 		history := false
 		if ok != nconf && !v.Crash {
 			// not reproducible alone: does it depend on the calls made before it? Re-run the case's group from
